@@ -126,7 +126,7 @@ Unglue(st) == [st EXCEPT !.out = NoGlue(@)]
 RECURSIVE EmitItemToks(_, _, _, _)
 EmitItemToks(out, it, fr, j) ==
   IF j > Len(it.ts) THEN out
-  ELSE LET tag == IF fr.kind = "file" THEN Tag("copy", fr.file, it.off + it.to[j]) ELSE fr.org
+  ELSE LET tag == IF fr.org = NoTag THEN Tag("copy", fr.file, it.off + it.to[j]) ELSE fr.org
            glue == j = Len(it.ts) /\ it.g
        IN EmitItemToks(EmitTok(out, it.ts[j], tag, glue), it, fr, j + 1)
 
@@ -223,7 +223,7 @@ ExpandUse(st, fr, u) ==
             ELSE IF d.b = <<>> THEN Nothing
             ELSE LET body  == Subst(Glue(d.b[1].toks), d.a, b.m)
                      paren == IF d.a = <<>> /\ u.a # <<>> THEN ParenToks(u.a[1]) ELSE <<>>
-                     tag   == IF fr.kind = "text" THEN fr.org   \* bytes of a nested expansion belong to the outermost usage
+                     tag   == IF fr.org # NoTag THEN fr.org   \* bytes of a nested expansion belong to the outermost usage
                               ELSE IF d.file = "" THEN Tag("syn", "", 0)
                               ELSE Tag("exp", d.file, d.off)
                  IN [ok |-> TRUE, err |-> <<>>, items |-> BodyItems(body \o paren), tag |-> tag, none |-> FALSE]
@@ -296,7 +296,7 @@ IncludeLineDevFired(fr) == "IncludeLineUsesStartLine" \in Dev /\ LineMates(fr) #
 (* directives that directly follow a string literal appears once more, before their normal    *)
 (* contribution.                                                                              *)
 
-TriviaKinds == {"nl", "gap", "cmt", "use", "kept", "def", "undef", "undefall", "pos"}
+TriviaKinds == {"nl", "gap", "cmt", "use", "kept", "def", "undef", "undefall", "pos", "inc"}
 RECURSIVE RawBToks(_), RawArgs(_, _)
 RawUse(n, a) == <<"`", n>> \o (IF a = <<>> THEN <<>> ELSE <<"(">> \o RawArgs(a[1], 1) \o <<")">>)
 RawBToks(ts) ==
@@ -315,7 +315,7 @@ RawItemToks(it) ==
 RECURSIVE EmitRawToks(_, _, _, _, _)
 EmitRawToks(out, it, raw, fr, j) ==
   IF j > Len(raw) THEN out
-  ELSE LET tag == IF fr.kind = "file" /\ j <= Len(it.to) THEN Tag("copy", fr.file, it.off + it.to[j]) ELSE fr.org
+  ELSE LET tag == IF fr.org = NoTag /\ j <= Len(it.to) THEN Tag("copy", fr.file, it.off + it.to[j]) ELSE fr.org
            o2 == IF it.k = "cmt" THEN EmitCmt(out, raw[j], tag) ELSE EmitTok(NoGlue(out), raw[j], tag, FALSE)
        IN EmitRawToks(o2, it, raw, fr, j + 1)
 RECURSIVE EmitTriviaRaw(_, _, _)
@@ -362,7 +362,9 @@ StepInclude2(st, env, fr, it) ==
           ELSE IF kind # "file" THEN FailDeeper(st, <<"ReadUtf8", p>>)
           ELSE IF fr.inc + 1 > Limit THEN FailDeeper(st, <<"ExceedRecursiveLimit">>)
           ELSE LET adv == Advance(st)
-                   nf  == Frame("file", p, FileItems(env, p), FALSE, NoTag, fr.inc + 1, IF "DepthNotThreaded" \in Dev THEN 0 ELSE fr.res)
+                   \* a file included from inside an expansion is flattened into the expansion's text:
+                   \* its bytes belong to the outermost usage as well
+                   nf  == Frame("file", p, FileItems(env, p), FALSE, fr.org, fr.inc + 1, IF "DepthNotThreaded" \in Dev THEN 0 ELSE fr.res)
                IN [adv EXCEPT !.stack = Append(@, nf)]
 
 StepInclude(st, env, fr, it) ==
@@ -373,7 +375,7 @@ StepInclude(st, env, fr, it) ==
 
 StepDefine(st, fr, it) ==
   LET e == [n |-> it.n, none |-> FALSE, f |-> it.f, a |-> it.a, b |-> it.b,
-            file |-> IF fr.kind = "file" THEN fr.file ELSE "",
+            file |-> IF fr.org = NoTag THEN fr.file ELSE "",
             off |-> IF it.b = <<>> THEN 0 ELSE it.off + it.b[1].boff]
       st2 == IF it.n \in Predefined THEN st ELSE [st EXCEPT !.defs = DefSet(@, e)]
   IN Advance(EmitItem(st2, it))       \* the directive itself is kept in the output
@@ -405,7 +407,7 @@ StepLive(st0, env, fr, it) ==
   CASE it.k \in {"tok", "kept"} -> Advance(EmitItem(st, it))
     [] it.k = "str"      -> StepStr(st, fr, it)
     [] it.k = "cmt"      -> IF env.strip THEN Advance(StripCmt(st, it))
-                            ELSE Advance([st EXCEPT !.out = EmitCmt(@, IF it.ts # <<>> THEN it.ts[1] ELSE it.n, IF fr.kind = "file" THEN Tag("copy", fr.file, it.off) ELSE fr.org)])
+                            ELSE Advance([st EXCEPT !.out = EmitCmt(@, IF it.ts # <<>> THEN it.ts[1] ELSE it.n, IF fr.org = NoTag THEN Tag("copy", fr.file, it.off) ELSE fr.org)])
     [] it.k \in {"nl", "gap"} -> Advance(Unglue(st))
     [] it.k = "def"      -> StepDefine(st, fr, it)
     [] it.k = "undef"    -> Advance(EmitItem([st EXCEPT !.defs = DefDel(@, it.n)], it))
